@@ -9,6 +9,7 @@
   counting is involved.  Every theorem holds for all inputs, linear and circular, of any size.
 -/
 import ASV.Proofs.Refines
+import ASV.Proofs.SpecClasses
 namespace ASV.C05
 open ASV ASV.CC ASV.CC.Spec
 
@@ -446,13 +447,78 @@ theorem formation_refines_reference_linear (ps : List Proto) (cs : List Cand) (h
     (h : formation ps none = .ok cs) : RefinesLinear ps cs :=
   formation_refines_linear hn hne hv h
 
+/-- The class computation of the executable reference (`Spec.classesOf`: grow a class by fixpoint union,
+    take it out, repeat) returns the connected components of the relation read in both directions:
+    classes are non-empty parts of the input, every element is in a class, and for `x` in a class `c`,
+    `y ∈ c` exactly when a chain of related elements of the input leads from `x` to `y`. -/
+theorem reference_classes_are_connected_components {α : Type} [DecidableEq α] (rel : α → α → Bool) (l : List α) :
+    (∀ c, c ∈ classesOf rel l → c ≠ [] ∧ ∀ x, x ∈ c → x ∈ l) ∧
+    (∀ u, u ∈ l → ∃ c, c ∈ classesOf rel l ∧ u ∈ c) ∧
+    (∀ c, c ∈ classesOf rel l → ∀ x, x ∈ c → ∀ y, (y ∈ c ↔ Walk rel l x y)) :=
+  classesOf_components rel l
+
+example : classesOf (fun (a b : Nat) => a + 1 == b) [5, 1, 7, 2, 4] = [[5, 4], [1, 2], [7]] := by decide +kernel
+
+/-- The hybrid classes the executable reference starts from (`hclasses` in `Spec.reference`: classes of
+    "share a defining gene" with at least two protoclusters) are exactly the `Linked` chain classes of
+    `shareGroups`, the notion `hybrid_groups_are_sharing_classes` and `RefinesLinear` are stated in. -/
+theorem reference_hybrid_classes_are_chain_classes (ps : List Proto) (hn : ps.Nodup) (a b : Proto) :
+    (∃ c, c ∈ (classesOf shareGene ps).filter (fun c => c.length ≥ 2) ∧ a ∈ c ∧ b ∈ c) ↔
+      Linked (shareGroups ps) a b :=
+  reference_hybrid_classes ps hn a b
+
+/-- The model's hybrid pass against the executable reference's `hclasses` (any record): two
+    protoclusters of one reference class end up in one hybrid group of the model, and every hybrid group
+    of the model contains a set `m` of ≥ 2 protoclusters any two of which lie in one reference class
+    (the rest of the group: `hybrid_groups_are_sharing_classes`).  The reference computes its classes on
+    the input order, the model on its sorted order; the classes are the same (`reference_hybrid_classes_sorted`). -/
+theorem hybrid_groups_match_reference_classes (ps : List Proto) (wrap : Option Int) (hg : List (List Proto))
+    (un : List Proto) (hn : ps.Nodup) (h : findHybrids (sortProtos ps) wrap = .ok (hg, un)) :
+    (∀ c, c ∈ (classesOf shareGene ps).filter (fun c => c.length ≥ 2) → ∀ a b, a ∈ c → b ∈ c →
+      ∃ g, g ∈ hg ∧ a ∈ g ∧ b ∈ g) ∧
+    (∀ g, g ∈ hg → ∃ m : List Proto, (∀ x, x ∈ m → x ∈ g) ∧ 2 ≤ m.length ∧
+      ∀ a b, a ∈ m → b ∈ m → ∃ c, c ∈ (classesOf shareGene ps).filter (fun c => c.length ≥ 2) ∧ a ∈ c ∧ b ∈ c) := by
+  obtain ⟨h1, h2⟩ := hybrid_groups_are_sharing_classes (sortProtos ps) wrap hg un (nodup_sortProtos hn) h
+  refine ⟨?_, ?_⟩
+  · intro c hc a b ha hb
+    exact h1 a b ((reference_hybrid_classes_sorted ps hn a b).1 ⟨c, hc, ha, hb⟩)
+  · intro g hg'
+    obtain ⟨m, _, hm1, hm2, hm3, _⟩ := h2 g hg'
+    exact ⟨m, hm1, hm2, fun a b ha hb => (reference_hybrid_classes_sorted ps hn a b).2 (hm3 a b ha hb)⟩
+
+/-- The interleaved / neighbouring groups of the executable reference (`igroups` / `ngroups` in
+    `Spec.reference`: unit classes of "spans overlap" with at least two units, then the union of the
+    members) are exactly the `Linked` chain classes of `overlapGroups`, the notion the stage theorems and
+    `RefinesLinear` are stated in.  Hypotheses on the units (each is needed): none listed twice, none
+    empty, two units with a common protocluster are the same unit or overlap. -/
+theorem reference_overlap_groups_are_chain_classes (us : List U) (hn : us.Nodup) (hne : ∀ u, u ∈ us → u.members ≠ [])
+    (hshare : ∀ u v p, u ∈ us → v ∈ us → p ∈ u.members → p ∈ v.members →
+      u = v ∨ locationsOverlap u.span v.span = true) (a b : Proto) :
+    (∃ g, g ∈ (bigClasses us).map (fun c => c.foldl (fun acc u => Spec.union acc u.members) []) ∧ a ∈ g ∧ b ∈ g) ↔
+      Linked (overlapGroups us) a b :=
+  reference_overlap_classes us hn hne hshare a b
+
+/-- the hypotheses hold for three units in a chain and a fourth apart, and the reference forms the
+    group of the first three -/
+example :
+    let p : Nat → Proto := fun i => ⟨i, .simple ⟨0, 1, .fwd⟩, .simple ⟨0, 1, .fwd⟩, [], ""⟩
+    let us : List U := [⟨[p 0, p 1], .simple ⟨10, 30, .fwd⟩⟩, ⟨[p 2], .simple ⟨50, 70, .fwd⟩⟩,
+                        ⟨[p 3], .simple ⟨25, 55, .fwd⟩⟩, ⟨[p 4], .simple ⟨80, 90, .fwd⟩⟩]
+    us.Nodup ∧ (∀ u, u ∈ us → u.members ≠ []) ∧
+    (∀ u, u ∈ us → ∀ v, v ∈ us → ∀ q, q ∈ u.members → q ∈ v.members → u = v ∨ locationsOverlap u.span v.span = true) ∧
+    (bigClasses us).map (fun c => (c.foldl (fun acc u => Spec.union acc u.members) []).map (·.id)) = [[0, 1, 3, 2]] := by
+  decide +kernel
+
 /-- Still not proved: equality with the *executable* `Spec.reference` (the correspondence compares every
     implementation output with it).  `formation_refines_reference_linear` gives the run stage by stage in
-    the reference's own notions; what is missing for the equality is
-    (1) that `Spec.classesOf` (fixpoint union) returns exactly the `Linked` chain classes of
-        `shareGroups` / `overlapGroups` (with the ≥ 2-units filter),
-    (2) that `Spec.addGroups` satisfies `PassDesc` (it is that statement read as a definition) and
-        the unfolding of the monadic `reference` into its six stages,
+    the reference's own notions, and `reference_hybrid_classes_are_chain_classes` /
+    `reference_overlap_groups_are_chain_classes` show that the class computations of the executable
+    reference produce exactly those notions (item (1) of the earlier list, now proved).  What is still
+    missing for the equality is
+    (2) that `Spec.addGroups` satisfies `PassDesc` (it is that statement read as a definition), the unit
+        hypotheses of `reference_overlap_groups_are_chain_classes` for the reference's own units
+        (`unitsOf`: entries have distinct keys and disjoint or nested members), and the unfolding of the
+        monadic `reference` into its six stages,
     (3) circular records. -/
 def FormationRefinesReference : Prop :=
   ∀ (ps : List Proto) (wrap : Option Int) (cs : List Cand) (es : List (Kind × List Proto)), ps.Nodup →
